@@ -153,7 +153,7 @@ namespace nmtools::utl
         vector(size_type N)
             : allocator{}
             , buffer_(allocator.allocate(N))
-            , size_(N)
+            , size_(0)
             , buffer_size_(N)
             , initialized(true)
         {
@@ -224,6 +224,10 @@ namespace nmtools::utl
                 buffer_ = new_buffer;
             } else {
                 // not invalidating the value, for now
+            }
+            // value-initialize newly exposed elements, like std::vector
+            for (size_type i=old_size; i<new_size; i++) {
+                buffer_[i] = T{};
             }
         }
 
